@@ -544,7 +544,15 @@ func buildSCFirst(ctx context.Context, h *harness) (callFn, error) {
 }
 
 func proposalOpts(h *harness) *api.ProposalOpts {
-	return &api.ProposalOpts{Slot: phase0.Slot(h.slot), RandaoReveal: phase0.BLSSignature{0xc0}, Graffiti: [32]byte{'c', '0', '7'}}
+	var g [32]byte
+	copy(g[:], h.pl.Graffiti)
+	return &api.ProposalOpts{Slot: phase0.Slot(h.slot), RandaoReveal: phase0.BLSSignature{0xc0}, Graffiti: g}
+}
+
+// NodeClient implements eth2client.NodeClientProvider: the client name the {{CLIENT}} graffiti template expands to.
+func (s *stub) NodeClient(_ context.Context) (*api.Response[string], error) {
+	simrt.Yield(fmt.Sprintf("bn%d/NodeClient", s.i))
+	return &api.Response[string]{Data: clientNames[s.i%len(clientNames)], Metadata: map[string]any{}}, nil
 }
 
 func buildBPBest(ctx context.Context, h *harness) (callFn, error) {
